@@ -37,6 +37,7 @@ func runC15(c *core.Ctx) {
 	h.transferTimeoutAnswers("C15.4g transfer-timeout-answers")
 	// a task answered at the end of a leadership is not kept: the long-lived leader object would answer it again
 	h.releaseEmptiesHolders("C15.4h release-empties-holders")
+	h.taskReplyPublishes("C15.4i task-reply")
 	c.Clause("C15.5 shutdown can make progress: ordering of Serve's epilogue, single closer of Raft.close")
 	h.shutdownOrder("C15.5 shutdown")
 	h.stateDriver("C15.5b state-driver")
@@ -55,6 +56,8 @@ func runC15(c *core.Ctx) {
 	h.whoMayCompact("C15.10b who-may-compact")
 	c.Clause("C15.11 opening the latest snapshot cannot fail on healthy storage because a newer one was published meanwhile")
 	h.snapshotOpenPinned("C15.11 open-pinned")
+	c.Clause("C15.12 a request handler clears or compacts the log only after the replications of an ended leadership were stopped and waited for")
+	h.logChangedOnlyWithoutReaders("C15.12 log-readers")
 }
 
 type guardSpec struct{ field, mu, reason string }
